@@ -734,6 +734,15 @@ def rule_literal_fallback(ctx, rep):
     bad = []
     gave_up = []
     wrong_form = []
+    # helpers that build the match object (parts of match_link_image moved out) are interpreted, not stubbed
+    cg0 = ctx.callgraph()
+    mo = model.classes.get(PKG + '.core_tokens.MatchObj')
+    mo_init = mo.methods.get('__init__') if mo is not None else None
+    builders = set()
+    for q in cg0.edges.get(f.qualname, ()):
+        g = model.functions.get(q)
+        if g is not None and g.cls is None and g is not f and mo_init is not None and mo_init.qualname in cg0.reachable([g]):
+            builders.add(g.qualname)
 
     def runner(oracle):
         it = Interp(model, loop_bound=1)
@@ -766,7 +775,7 @@ def rule_literal_fallback(ctx, rep):
         for q in sorted(ctx.callgraph().edges.get(f.qualname, ())):
             g = model.functions.get(q)
             if g is None or g.cls is not None or g.modname != f.modname or g.qualname in it.func_hooks \
-                    or g.name in ('normalize_label',) or g is f:
+                    or g.name in ('normalize_label',) or g is f or g.qualname in builders:
                 continue
             it.func_hooks[g.qualname] = (lambda interp, fi, args, kwargs, g=g:
                                          FoundSomething() if interp.oracle.decide(None, 'scan:' + g.name) else None)
